@@ -408,6 +408,26 @@ fn vp_native_host_inside_tunnel_body() {
 fn vp_native_settings_flow() { crate::verif_native_watchdog::watched(vp_native_settings_flow_body); }
 fn vp_native_settings_flow_body() {
     let mut cases = 0u64;
+    // several threads, each working on its own clone of one session and on requests made from it, at the same time: every thread
+    // sees exactly its own values, the session they all came from keeps its own
+    {
+        let mut origin = crate::Session::new(); origin.max_redirections(4); origin.header("X-Origin", "o");
+        let handles: Vec<std::thread::JoinHandle<()>> = (0..8u32).map(|t| { let mut mine = origin.clone(); std::thread::spawn(move || {
+            for round in 0..200u32 {
+                mine.max_redirections(100 + t); mine.max_headers((10 + t) as usize); mine.header("X-Thread", format!("t{}", t)); mine.header_append("X-Round", format!("{}", round % 3));
+                let p = mine.get("http://h.test/").max_headers((50 + t) as usize).header_append("X-Thread", "req").prepare();
+                assert_eq!((p.base_settings.max_redirections, p.base_settings.max_headers), (100 + t, (50 + t) as usize), "thread {} round {}", t, round);
+                let vals: Vec<String> = p.headers().get_all("x-thread").iter().map(|v| v.to_str().unwrap().to_string()).collect();
+                assert_eq!(vals, vec![format!("t{}", t), "req".to_string()], "thread {} round {}", t, round);
+                assert_eq!(p.headers().get_all("x-origin").iter().count(), 1);
+                let q = mine.get("http://h.test/").prepare();
+                assert_eq!(q.base_settings.max_headers, (10 + t) as usize, "a sibling request of thread {} took the other request's value", t);
+            } }) }).collect();
+        for h in handles { h.join().unwrap_or_else(|p| std::panic::resume_unwind(p)); }
+        let p = origin.get("http://h.test/").prepare(); cases += 1; crate::verif_native_watchdog::progress();
+        assert_eq!((p.base_settings.max_redirections, p.base_settings.max_headers), (4, 100), "the session the clones came from was changed by them");
+        assert!(p.headers().get_all("x-thread").iter().next().is_none() && p.headers().get_all("x-round").iter().next().is_none(), "headers set on clones reached the session they came from");
+    }
     // Accept-Encoding: gzip, deflate is announced exactly when compression is allowed - whatever the method and whatever else the
     // request carries
     for m in ["GET", "POST", "PUT", "DELETE", "HEAD", "OPTIONS", "PATCH", "TRACE"] { for allow in [true, false] { for extra in [None, Some(("Range", "bytes=0-9")), Some(("If-Range", "x")), Some(("Accept", "text/x")), Some(("TE", "trailers")), Some(("Connection", "keep-alive"))] { for on_session in [false, true] {
@@ -713,10 +733,12 @@ fn vp_native_redirect_hops_with_bodies_body() {
     let path = std::env::temp_dir().join(format!("vp_native_hops_{}", std::process::id()));
     std::fs::write(&path, &big).unwrap();
     let mut cases = 0u64;
-    for status in [301u16, 302, 303, 307, 308] { for kind in ["empty", "text", "bytes", "file", "json", "json_streaming", "form", "multipart", "custom-chunked", "custom-length"] {
+    for status in [301u16, 302, 303, 307, 308] { for (ki, kind) in ["empty", "text", "bytes", "file", "json", "json_streaming", "form", "multipart", "custom-chunked", "custom-length"].into_iter().enumerate() {
         log.lock().unwrap().clear();
         let url = format!("http://127.0.0.1:{}/{}/start", a, status);
-        let rb = s.post(&url).header("X-Caller", "keep-me").header("Authorization", "Bearer caller-token").header("Cookie", "sid=abc").header("Proxy-Authorization", "Basic Y2FsbGVy");
+        // the method varies with the case (every method a caller may use with a body, an extension method among them)
+        let method = ["POST", "PUT", "PATCH", "DELETE", "PROPFIND"][(ki + status as usize) % 5];
+        let rb = crate::RequestBuilder::try_with_settings(http::Method::from_bytes(method.as_bytes()).unwrap(), &url, s.get(&url).prepare().base_settings.clone()).unwrap().header("X-Caller", "keep-me").header("Authorization", "Bearer caller-token").header("Cookie", "sid=abc").header("Proxy-Authorization", "Basic Y2FsbGVy");
         let (res, want): (crate::Result<crate::Response>, Option<Vec<u8>>) = match kind {
             "empty" => (rb.send(), Some(vec![])),
             "text" => (rb.text("héllo text").send(), Some("héllo text".as_bytes().to_vec())),
@@ -744,7 +766,7 @@ fn vp_native_redirect_hops_with_bodies_body() {
             }
             assert!(!x.body.starts_with(b"<"), "framing of hop {} does not match the body written: {} ({})", i, String::from_utf8_lossy(&x.body), ctx);
             if status == 307 || status == 308 {
-                assert!(x.first_line.starts_with("POST "), "method changed on hop {}: {} ({})", i, x.first_line, ctx);
+                assert!(x.first_line.starts_with(&format!("{} ", method)), "method {} changed on hop {}: {} ({})", method, i, x.first_line, ctx);
                 match &want { Some(w) => assert!(x.body == *w, "body of hop {}: {} bytes instead of {} ({})", i, x.body.len(), w.len(), ctx),
                               None => { /* multipart: known finding F8 (one-shot body) is reported by the contract check; here only the first hop is compared */ if i == 0 { assert!(!x.body.is_empty()); } } }
             }
@@ -856,6 +878,14 @@ fn vp_native_redirect_matrix_body() {
         seen.lock().unwrap().clear();
         let r = soff.get(format!("{}/c/301/2/path/x", base)).send().unwrap(); cases += 1; crate::verif_native_watchdog::progress();
         assert_eq!((r.status().as_u16(), seen.lock().unwrap().len()), (301, 1), "the session switched following off");
+    }
+    // every status from 300 to 399 with a usable Location: exactly 301, 302, 303, 307 and 308 are followed
+    for status in 300u16..400 {
+        let start = format!("{}/c/{}/1/abs/x", base, status);
+        seen.lock().unwrap().clear();
+        let r = s.get(&start).send().unwrap_or_else(|e| panic!("status {}: {}", status, e)); cases += 1; crate::verif_native_watchdog::progress();
+        let followed = [301u16, 302, 303, 307, 308].contains(&status);
+        assert_eq!((r.status().as_u16(), seen.lock().unwrap().len()), if followed { (200, 2) } else { (status, 1) }, "status {} with a Location", status);
     }
     // an empty or fragment-only Location is a reference to the same document: the next request goes to this hop's URL, query included
     for status in [301u16, 302, 303, 307, 308] { for form in ["empty", "frag"] { for q in ["?token=1&x=y", ""] {
@@ -1146,6 +1176,24 @@ fn vp_native_connect_refusals_body() {
         settle(&log, 1);
         let seen = log.lock().unwrap().clone();
         assert!(seen.len() == 1 && seen[0].raw_after_head.is_empty(), "client wrote to the proxy after the reply {:?}", String::from_utf8_lossy(junk));
+    }
+    // every status a proxy can answer CONNECT with: only 2xx is an agreement; any other status is reported with that very status
+    // and nothing more is written to the proxy
+    for status in 100u16..600 {
+        if (200..300).contains(&status) { continue; }
+        let log = Arc::new(Mutex::new(Vec::new()));
+        let proxy = serve(log.clone(), move |_, _| resp(status, None, "no"));
+        let mut s = crate::Session::new();
+        s.proxy_settings(crate::ProxySettings::builder().https_proxy(Url::parse(&format!("http://127.0.0.1:{}", proxy)).unwrap()).build());
+        let e = s.get("https://origin.test/").send(); cases += 1; crate::verif_native_watchdog::progress();
+        match e.map_err(|e| e.into_kind()) {
+            Err(crate::ErrorKind::ConnectError { status_code, .. }) => assert_eq!(status_code.as_u16(), status, "the refusal carries the proxy's status"),
+            Err(other) => panic!("CONNECT answered with {}: expected a connect error with that status, got {:?}", status, other),
+            Ok(_) => panic!("CONNECT answered with {} and the exchange went on", status),
+        }
+        settle(&log, 1);
+        let seen = log.lock().unwrap().clone();
+        assert!(seen.len() == 1 && seen[0].raw_after_head.is_empty(), "client wrote to the proxy after a {} reply", status);
     }
     println!("VP-NATIVE connect_refusals cases={}", cases);
 }
